@@ -396,9 +396,19 @@ pub fn run_life(case_in: &J, out: &mut Out, ic_build: bool) {
     let mut case = case_in.clone();
     let plan = case_in["plan"].clone();
     let src = case_in["src"].clone();
-    if plan["adv"].as_bool().unwrap_or(false) {
+    // adv: true = every adversarial document, n = the first n of them
+    let adv_n = match &plan["adv"] {
+        J::Bool(true) => usize::MAX,
+        J::Number(n) => n.as_u64().unwrap_or(0) as usize,
+        _ => 0,
+    };
+    if adv_n > 0 {
         let mut docs = case["docs"].as_array().cloned().unwrap_or_default();
-        docs.extend(adversarial_docs(&src));
+        let adv = adversarial_docs(&src);
+        // rotate so that a small n still sees different kinds from case to case
+        let rot = crate::enc::str_of(&src["cond"]["s"]).map(|s| s.len()).unwrap_or(0);
+        let n = adv.len();
+        docs.extend((0..n.min(adv_n)).map(|i| adv[(i * 5 + rot) % n].clone()));
         case["docs"] = J::Array(docs);
     }
     let docs_j: Vec<J> = case["docs"].as_array().cloned().unwrap_or_default();
